@@ -247,6 +247,11 @@ def make_unstable(r, prog, g):
     g0['unstable'] = True
     g0['iterations'] = r.pick([2, 3])
     g0.pop('clock_during', None)
+    if r.chance(0.5):
+        # ... and that earlier generation, asked for more runs, was aborted
+        # when a later run of the command failed
+        g0['iterations'] = r.pick([4, 5])
+        g0['abort_at'] = r.randint(3, g0['iterations'])
     return g0, e
 
 
@@ -311,6 +316,7 @@ class Sim(object):
         self.clock_during = None
         self.same_tick = False
         self.unstable = False
+        self.abort_at = None
 
     def touch(self, path):
         self.ctimes[os.path.abspath(path)] = self.clock.t
@@ -421,6 +427,9 @@ class SimPopen(object):
                     sim.touch(p)
             elif e['t'] == 'exit':
                 code = e['code']
+        if sim.unstable and getattr(sim, 'abort_at', None) == sim.popen_calls:
+            code = 3 if code == 0 else 0
+            sim.ctx.stats['faults']['command_fails_on_a_later_run'] += 1
         sim.clock.advance(dur / 2.0)
         self.returncode = code
         return ''.join(out).encode('utf-8'), ''.join(err).encode('utf-8')
@@ -635,6 +644,7 @@ def run_gentest(ctx, op):
     sim.clock_during = op.get('clock_during')
     sim.same_tick = bool(op.get('same_tick'))
     sim.unstable = bool(op.get('unstable'))
+    sim.abort_at = op.get('abort_at')
     if sim.clock_during is not None:
         ctx.nontrivial = True
     outcome, exc = 'ok', None
@@ -668,6 +678,7 @@ def run_gentest(ctx, op):
         outcome, exc = 'error', e
     sim.clock_during = None
     sim.unstable = False
+    sim.abort_at = None
     after = fsaudit.snapshot(roots)
     delta = fsaudit.diff(before, after, ignore_mtime=True)
     cls = text_class(ctx, prog)
